@@ -31,12 +31,22 @@ for line in sys.stdin:
         break
     out = {}
     try:
-        model = core.load_model(plugin, dtype=cmd["dtype"], platform="dll")
         q = np.array([0.1, 0.2, 0.3, 0.4, 0.5])
-        kernel = model.make_kernel([q])
-        I = direct_model.call_kernel(kernel, {"background": 0.0})
-        out["values"] = [float(v) for v in I]
-        out["dll"] = os.path.basename(model.dllpath)
+        if cmd.get("via") == "sasview":
+            # the SasView wrapper's own loader (it keeps the compiled model on the class it creates)
+            from sasmodels import sasview_model
+            Model = sasview_model.load_custom_model(plugin)
+            m = Model()
+            m.setParam("background", 0.0)
+            I = m.evalDistribution(q)
+            # the parameter default is carried by the class, not by I(q): report it in the last slot as I(q) does
+            out["values"] = [float(v) for v in I[:4]] + [float(I[4])]
+        else:
+            model = core.load_model(plugin, dtype=cmd["dtype"], platform="dll")
+            kernel = model.make_kernel([q])
+            I = direct_model.call_kernel(kernel, {"background": 0.0})
+            out["values"] = [float(v) for v in I]
+            out["dll"] = os.path.basename(model.dllpath)
         out["package"] = os.path.dirname(core.__file__)
     except Exception as exc:
         import traceback
